@@ -44,12 +44,13 @@ type c08call struct {
 	filter     string
 	rogue      []byte // payload of an unsolicited extra message emitted before the reply (malformed stream)
 	// coverage elements (own random stream, see c08AddCoverage)
-	subID        int        // the reply itself carries <subscription-id>subID</subscription-id> (0: no)
-	notifBefore  []c08notif // notifications emitted right before / right after the reply
-	notifAfter   []c08notif
-	notifBetween []c08notif // ... after the call returned
-	getSubs      []int      // GetSubscriptionMessages(id) after the call (and what follows it)
-	writeFail    bool       // the client's first write of this call fails: the request never leaves
+	subID          int        // the reply itself carries <subscription-id>subID</subscription-id> (0: no)
+	notifBefore    []c08notif // notifications emitted right before / right after the reply
+	notifAfter     []c08notif
+	notifBetween   []c08notif // ... after the call returned
+	getSubs        []int      // GetSubscriptionMessages(id) after the call (and what follows it)
+	writeFail      bool       // the client's first write of this call fails: the request never leaves
+	writeFailFinal bool       // 1.1: the final return (third write) fails: the server has the request, the call fails
 }
 
 // c08notif is one unsolicited message. sub = the subscription it belongs to (0: none); msgid != 0:
@@ -441,6 +442,10 @@ func c08AddCoverage(p *c08plan, h *vlib.Rng) {
 		if c.mode == 2 && c.rogue == nil && len(c.before)+len(c.after) == 0 && h.Chance(1, 8) {
 			c.writeFail = true
 			c.notifBefore, c.notifAfter = nil, nil
+		} else if p.v11 && p.echo <= sim.C08EchoSep && c.rogue == nil && k == len(p.calls)-1 && h.Chance(1, 5) {
+			// only as the last call: scrapligo's final return doubles as the line feed that opens
+			// the next request's first chunk, so after this failure the stream is no longer framed
+			c.writeFailFinal = true
 		}
 	}
 	if len(p.calls) >= 3 && h.Chance(1, 12) {
@@ -538,6 +543,13 @@ func c08Directed(name string) (c08plan, bool) {
 		p.calls[3].writeFail = true
 		p.calls[4].writeFail = true
 		return p, true
+	case "final-return-write-fails-11":
+		// the reply to the failed call still arrives (the server had the whole request): it is
+		// filed under its id and must not reach anybody else
+		p := mkCalls(c08plan{name: name, v11: true, echo: sim.C08EchoSep}, 0, 1, 0)
+		p.calls[2].writeFailFinal = true
+		p.calls[2].before = []int{1}
+		return p, true
 	case "read-fault-midsession":
 		p := mkCalls(c08plan{name: name, v11: true, faultAt: 2}, 0, 1, 0, 0)
 		return p, true
@@ -605,7 +617,7 @@ func c08Directed(name string) (c08plan, bool) {
 }
 
 var c08DirectedNames = []string{"notif-interleaved-10", "notif-interleaved-11", "notif-with-old-message-id-text", "notif-with-live-message-id-text", "id-single-quotes",
-	"id-spaces-around-equals", "ids-beyond-1000", "write-failure-consumes-id", "read-fault-midsession", "late-replies-out-of-order",
+	"id-spaces-around-equals", "ids-beyond-1000", "write-failure-consumes-id", "final-return-write-fails-11", "read-fault-midsession", "late-replies-out-of-order",
 	"force-self-closing-tags", "matrix-both-preferred-10", "matrix-both-preferred-11", "matrix-both-unset", "matrix-11-only",
 	"matrix-10-only-preferred-10", "echo-coalesced-10", "echo-coalesced-11", "echo-coalesced-part-of-reply", "echo-coalesced-split-echo",
 	"hist-idle-after-success-10", "hist-idle-after-success-11", "hist-idle-default-timeout",
@@ -707,6 +719,12 @@ func c08Execute(p c08plan, tscale int) (run c08run) {
 		if !c.writeFail {
 			srv.PlanOrder = append(srv.PlanOrder, k)
 		}
+		if c.writeFailFinal {
+			if srv.FailFinalWrite == nil {
+				srv.FailFinalWrite = map[int]bool{}
+			}
+			srv.FailFinalWrite[k] = true
+		}
 	}
 	srv.Rogue = map[int][]byte{}
 	for i, c := range p.calls {
@@ -806,7 +824,7 @@ func c08Execute(p c08plan, tscale int) (run c08run) {
 			}
 		}()
 		run.outcomes = append(run.outcomes, o)
-		if c.writeFail {
+		if c.writeFail || c.writeFailFinal {
 			srv.Snapshot(func() { srv.WriteErrAfter = -1 })
 		}
 		waitQuiet()
@@ -990,7 +1008,7 @@ func c08Script(run c08run, resetAfter map[int]bool, idleEvery bool) string {
 		if k > 0 && cl.idleFactor > 0 {
 			items = append(items, fmt.Sprintf("T%d", cl.idleFactor*run.plan.timeoutOf(k-1)+15)) // idle gap
 		}
-		if cl.writeFail || (run.plan.faultAt > 0 && k >= run.plan.faultAt) {
+		if cl.writeFail || cl.writeFailFinal || (run.plan.faultAt > 0 && k >= run.plan.faultAt) {
 			// the id is consumed, then the call fails at once (write error / transport error)
 			items = append(items, fmt.Sprintf("C%d", tmo), "X")
 			emitPhase(2*k, true)
@@ -1381,6 +1399,9 @@ func runC08(c *ctx) {
 			if cl.writeFail {
 				expectErr[k], noRequest[k] = true, true
 			}
+			if cl.writeFailFinal {
+				expectErr[k] = true
+			}
 			if p.faultAt > 0 && k >= p.faultAt {
 				expectErr[k], noRequest[k] = true, true
 			}
@@ -1422,7 +1443,7 @@ func runC08(c *ctx) {
 			desc := fmt.Sprintf("call %d (id %d, v%s, echo=%d, mode=%d)", k, idBase+k, ver, p.echo, cl.mode)
 			if expectErr[k] {
 				what := "its write failed"
-				if !cl.writeFail {
+				if !cl.writeFail && !cl.writeFailFinal {
 					what = "the transport fails every read"
 				}
 				if o.class == "nil" {
@@ -1707,6 +1728,9 @@ func runC08(c *ctx) {
 			}
 			if cl.writeFail {
 				res.Count("history:client-write-fails")
+			}
+			if cl.writeFailFinal {
+				res.Count("history:client-final-return-write-fails")
 			}
 			res.Distribution["GetSubscriptionMessages-calls"] += len(cl.getSubs)
 			res.Count("outcome:" + run.outcomes[k].class)
